@@ -11,7 +11,7 @@ RULE = ('EX engine: noiseless sums of K complex exponentials for EVERY K-subset 
         'phase patterns x N in {2P, 2P+1, 32, 33, 101+P+4} x EVERY P in K+1..Pmax x method in {music, ev} (function forms and pmusic/pev classes); real sinusoids at '
         'every admissible bin pair; argument validation over the full product NSIG x threshold x criteria.  Checks: for every true bin the maximum over k-1..k+1 '
         'exceeds every value farther than one bin from all true bins; pseudo-spectrum > 0, never NaN; singular values == SVD of the reference forward-backward '
-        'matrix, non-increasing, exactly K above 1e-8*s0; invalid argument combinations raise. Distinct = digests of pseudo-spectra')
+        'matrix, non-increasing, exactly K above 1e-12*s0 (weak tones down to 1e-9 of the strongest are part of the alphabet); invalid argument combinations raise. Distinct = digests of pseudo-spectra')
 ASSUMPTIONS = ['EV is run on the noiseless record plus a fixed 1e-6 * Weyl perturbation: its 1/lambda_noise weights are undefined (1/0 or 1/rounding noise) on exactly singular data; MUSIC and the rank clause use the exactly noiseless record',
                'signal-subspace dimension is given explicitly (NSIG=K); exact exponentials on the NFFT grid',
                'the peak clause is stated on bin neighbourhoods (k-1..k+1) so that plateaus of adjacent on-grid frequencies cannot confuse it',
@@ -67,6 +67,12 @@ def run_shard(desc, R, tier):
                         if K == 1 and sub[0] % 3 == 1:
                             eval_point({'kind': 'cx', 'NFFT': nf, 'bins': list(sub), 'amps': np.array(amps, dtype=complex), 'phases': list(ph),
                                         'P': P, 'N': 2 * P + 1, 'method': 'music', 'strided': True}, R)
+                        if K == 2 and (sub[1] - sub[0]) % nf in (3, nf // 2) and amps == AMPS[2][0]:
+                            # a weak second line (1e-9 of the first): still exactly two non-negligible singular values of a noiseless record (MUSIC only:
+                            # EV runs on the 1e-6 perturbed record, where such a line is below the perturbation)
+                            for N in (2 * P + 1, 33):
+                                eval_point({'kind': 'cx', 'NFFT': nf, 'bins': list(sub), 'amps': np.array([1.0, 1e-9], dtype=complex), 'phases': list(ph),
+                                            'P': P, 'N': N, 'method': 'music', 'weak': True}, R)
                         if (K == 1 and sub[0] % 3 == 2) or (K == 2 and sub[0] == 1 and sub[1] % 4 == 0):
                             # single-precision complex record (IQ capture): same subspace structure at float32 resolution
                             for meth in ('music', 'ev'):
@@ -154,7 +160,7 @@ def eval_point(pt, R):
         R.skip('N<2P or K>=P')
         return
     sclean = np.linalg.svd(rar.fb_matrix(x, P), compute_uv=False)
-    if np.sum(sclean > 1e-8 * sclean[0]) != K:
+    if np.sum(sclean > 1e-12 * sclean[0]) != K:
         R.point(pt, indomain=False)
         R.skip('reference_rank!=K')          # e.g. aliased / coincident exponentials for this N
         return
@@ -170,10 +176,12 @@ def eval_point(pt, R):
     single = bool(pt.get('single'))
     if single:
         x = x.astype(np.complex64 if np.iscomplexobj(x) else np.float32)
-    rt, neg = (1e-4, 1e-4) if single else (1e-9, 1e-8)       # float32 rounding (6e-8) limits how small the noise singular values of a single-precision record can be
+    rt, neg = (1e-4, 1e-4) if single else (1e-9, 1e-12)       # float32 rounding (6e-8) limits how small the noise singular values of a single-precision record can be
     FB = rar.fb_matrix(A.prom(x), P)
     sref = np.linalg.svd(FB, compute_uv=False)
     feats = {'method': meth, 'K': K, 'nfft': 'odd' if nf % 2 else 'even', 'dtype': ('complex' if kind == 'cx' else 'real') + ('-single' if pt.get('single') else ''), 'NP': '>100' if N - P > 100 else '<=100'}
+    if pt.get('weak'):
+        feats['weak_line'] = True
     R.point(pt)
     R.calls()
     try:
